@@ -15,90 +15,12 @@ import (
 	"verifharness/lib/corr"
 )
 
-type dpool struct{ bal, rew, at uint64 }
+type dpool = spw.DPool
+type spRec = spw.SPRec
+type provRec = spw.ProvRec
+type dumpRec = spw.DumpRec
 
-type spRec struct {
-	dead   bool
-	offers uint64
-	reward uint64
-	wallet string
-	pools  map[int]dpool
-	raw    string
-}
-
-type provRec struct {
-	kind       string
-	sd, killed bool
-}
-
-type dumpRec struct {
-	provs map[int]provRec
-	sps   map[string]spRec // "kind:id"
-}
-
-func splitList(s, key string) []string {
-	i := strings.Index(s, key+"=[")
-	if i < 0 {
-		return nil
-	}
-	rest := s[i+len(key)+2:]
-	j := strings.Index(rest, "]")
-	if j <= 0 {
-		return nil
-	}
-	return strings.Split(rest[:j], ",")
-}
-
-func parseDump(s string) *dumpRec {
-	if !strings.HasPrefix(s, "dump ") {
-		return nil
-	}
-	d := &dumpRec{provs: map[int]provRec{}, sps: map[string]spRec{}}
-	for _, e := range splitList(s, "provs") {
-		f := strings.Split(e, ":")
-		if len(f) != 4 {
-			continue
-		}
-		id, _ := strconv.Atoi(f[0])
-		d.provs[id] = provRec{f[1], f[2] == "1", f[3] == "1"}
-	}
-	for _, e := range splitList(s, "sps") {
-		b := strings.Index(e, "{")
-		if b < 0 {
-			continue
-		}
-		f := strings.Split(e[:b], ":")
-		if len(f) < 6 {
-			continue
-		}
-		r := spRec{pools: map[int]dpool{}, raw: e}
-		r.dead = f[2] == "d1"
-		r.offers, _ = strconv.ParseUint(strings.TrimPrefix(f[3], "o"), 10, 64)
-		r.reward, _ = strconv.ParseUint(strings.TrimPrefix(f[4], "r"), 10, 64)
-		r.wallet = strings.TrimPrefix(f[5], "w")
-		body := strings.TrimSuffix(e[b+1:], "}")
-		if body != "" {
-			for _, p := range strings.Split(body, ";") {
-				kv := strings.Split(p, "=")
-				if len(kv) != 2 {
-					continue
-				}
-				id, _ := strconv.Atoi(kv[0])
-				v := strings.Split(kv[1], "/")
-				if len(v) != 3 {
-					continue
-				}
-				var dp dpool
-				dp.bal, _ = strconv.ParseUint(v[0], 10, 64)
-				dp.rew, _ = strconv.ParseUint(v[1], 10, 64)
-				dp.at, _ = strconv.ParseUint(v[2], 10, 64)
-				r.pools[id] = dp
-			}
-		}
-		d.sps[f[0]+":"+f[1]] = r
-	}
-	return d
-}
+func parseDump(s string) *dumpRec { return spw.ParseDump(s) }
 
 // known: signatures already recorded in known_findings.jsonl — used ONLY to choose which violation of a case to report
 // first (an unrecorded one wins), never to suppress one.
@@ -187,19 +109,19 @@ func oracle(ops, outs []string) *corr.Violation {
 			if !dis || p == nil || n == nil {
 				continue
 			}
-			a, okA := p.sps[key]
-			b, okB := n.sps[key]
+			a, okA := p.SPs[key]
+			b, okB := n.SPs[key]
 			if !okA || !okB {
 				continue
 			}
-			changed := a.reward != b.reward
-			for id, dp := range a.pools {
-				if b.pools[id].rew != dp.rew {
+			changed := a.Reward != b.Reward
+			for id, dp := range a.Pools {
+				if b.Pools[id].Rew != dp.Rew {
 					changed = true
 				}
 			}
 			if changed {
-				mk("rewarded-after-"+how, fmt.Sprintf("op %d %q: provider %s was disabled by an authorised %s earlier, yet the reward payment is credited: %s -> %s", i, op, key, how, a.raw, b.raw))
+				mk("rewarded-after-"+how, fmt.Sprintf("op %d %q: provider %s was disabled by an authorised %s earlier, yet the reward payment is credited: %s -> %s", i, op, key, how, a.Raw, b.Raw))
 			}
 		case "kill", "shutdown":
 			if len(w) != 4 {
@@ -219,11 +141,11 @@ func oracle(ops, outs []string) *corr.Violation {
 			if p == nil || n == nil {
 				continue
 			}
-			pr, exists := p.provs[T]
-			applicable := exists && pr.kind == kind && kind != "authorizer" && (w[0] == "kill" || kind == "blobber" || kind == "validator")
-			before, hasSP := p.sps[key]
+			pr, exists := p.Provs[T]
+			applicable := exists && pr.Kind == kind && kind != "authorizer" && (w[0] == "kill" || kind == "blobber" || kind == "validator")
+			before, hasSP := p.SPs[key]
 			authorised := C == 3
-			if w[0] == "shutdown" && hasSP && before.wallet == w[3] {
+			if w[0] == "shutdown" && hasSP && before.Wallet == w[3] {
 				authorised = true
 			}
 			own := map[string]bool{"~acct:" + w[3]: true, "+acct:" + w[3]: true}
@@ -239,8 +161,8 @@ func oracle(ops, outs []string) *corr.Violation {
 			}
 			if !authorised || !applicable {
 				if ex := extra(own); len(ex) > 0 {
-					if w[0] == "shutdown" && kind == "blobber" && applicable && (pr.sd || pr.killed) && len(ex) == 1 && ex[0] == "~sp:blobber:"+w[2] {
-						mk("shutdown-refresh-before-authorisation", fmt.Sprintf("op %d %q: caller %d is neither the owner nor the delegate wallet, yet the call succeeds (%s) and rewrites the stake pool of the already shut-down blobber: %s -> %s", i, op, C, status, before.raw, n.sps[key].raw))
+					if w[0] == "shutdown" && kind == "blobber" && applicable && (pr.SD || pr.Killed) && len(ex) == 1 && ex[0] == "~sp:blobber:"+w[2] {
+						mk("shutdown-refresh-before-authorisation", fmt.Sprintf("op %d %q: caller %d is neither the owner nor the delegate wallet, yet the call succeeds (%s) and rewrites the stake pool of the already shut-down blobber: %s -> %s", i, op, C, status, before.Raw, n.SPs[key].Raw))
 					} else {
 						mk("unauthorised-change", fmt.Sprintf("op %d %q: unauthorised or inapplicable call changed %v", i, op, ex))
 					}
@@ -257,13 +179,13 @@ func oracle(ops, outs []string) *corr.Violation {
 				}
 				continue
 			}
-			after, stillSP := n.sps[key]
-			if pr.sd || pr.killed {
+			after, stillSP := n.SPs[key]
+			if pr.SD || pr.Killed {
 				// a further attempt: the stake must not be slashed again
 				if stillSP {
-					for id, dp := range before.pools {
-						if after.pools[id].bal != dp.bal {
-							mk("slashed-twice", fmt.Sprintf("op %d %q: provider already disabled, delegate %d balance %d -> %d", i, op, id, dp.bal, after.pools[id].bal))
+					for id, dp := range before.Pools {
+						if after.Pools[id].Bal != dp.Bal {
+							mk("slashed-twice", fmt.Sprintf("op %d %q: provider already disabled, delegate %d balance %d -> %d", i, op, id, dp.Bal, after.Pools[id].Bal))
 							break
 						}
 					}
@@ -283,22 +205,22 @@ func oracle(ops, outs []string) *corr.Violation {
 			}
 			okEffect := true
 			why := ""
-			np, provStill := n.provs[T]
-			if len(before.pools) == 0 && kind != "miner" && kind != "sharder" {
+			np, provStill := n.Provs[T]
+			if len(before.Pools) == 0 && kind != "miner" && kind != "sharder" {
 				// nothing staked: the provider and its pool are removed altogether
 				if provStill || stillSP {
 					okEffect, why = false, "empty provider not removed"
 				}
 			} else {
-				if !provStill || (w[0] == "kill" && !np.killed) || (w[0] == "shutdown" && !np.sd) {
+				if !provStill || (w[0] == "kill" && !np.Killed) || (w[0] == "shutdown" && !np.SD) {
 					okEffect, why = false, "provider record not flagged"
 				}
-				if !stillSP || !after.dead {
+				if !stillSP || !after.Dead {
 					okEffect, why = false, "stake pool of the provider not marked dead"
 				} else {
-					for id, dp := range before.pools {
-						if after.pools[id].bal != slashed(dp.bal, s) {
-							okEffect, why = false, fmt.Sprintf("delegate %d balance %d, expected trunc(%d*(1-%v)) = %d", id, after.pools[id].bal, dp.bal, s, slashed(dp.bal, s))
+					for id, dp := range before.Pools {
+						if after.Pools[id].Bal != slashed(dp.Bal, s) {
+							okEffect, why = false, fmt.Sprintf("delegate %d balance %d, expected trunc(%d*(1-%v)) = %d", id, after.Pools[id].Bal, dp.Bal, s, slashed(dp.Bal, s))
 						}
 					}
 				}
@@ -306,11 +228,11 @@ func oracle(ops, outs []string) *corr.Violation {
 			ex := extra(allowed)
 			ckey := kind + ":" + w[3]
 			if !okEffect {
-				cafter, cok := n.sps[ckey]
-				if w[0] == "shutdown" && C != T && stillSP && after.raw == before.raw && cok && cafter.dead {
-					mk("shutdown-saves-under-caller-id", fmt.Sprintf("op %d %q by the %s: %s is unchanged (not dead, not slashed) and the dead, slashed copy was written to %s:stakepool:<caller %d>: %s (was %q)", i, op, who(C, before), key, kind, C, cafter.raw, p.sps[ckey].raw))
+				cafter, cok := n.SPs[ckey]
+				if w[0] == "shutdown" && C != T && stillSP && after.Raw == before.Raw && cok && cafter.Dead {
+					mk("shutdown-saves-under-caller-id", fmt.Sprintf("op %d %q by the %s: %s is unchanged (not dead, not slashed) and the dead, slashed copy was written to %s:stakepool:<caller %d>: %s (was %q)", i, op, who(C, before), key, kind, C, cafter.Raw, p.SPs[ckey].Raw))
 				} else {
-					mk("disable-effect", fmt.Sprintf("op %d %q: %s (before %s, after %s)", i, op, why, before.raw, after.raw))
+					mk("disable-effect", fmt.Sprintf("op %d %q: %s (before %s, after %s)", i, op, why, before.Raw, after.Raw))
 				}
 			} else {
 				disabledBy[key] = w[0]
@@ -324,7 +246,7 @@ func oracle(ops, outs []string) *corr.Violation {
 				}
 				if w[0] == "shutdown" && onlyCaller {
 					if okEffect { // (an empty provider was removed, yet a record appeared under the caller's id)
-						mk("shutdown-saves-under-caller-id", fmt.Sprintf("op %d %q by the %s: a dead stake-pool record was written to %s:stakepool:<caller %d>: %s", i, op, who(C, before), kind, C, n.sps[ckey].raw))
+						mk("shutdown-saves-under-caller-id", fmt.Sprintf("op %d %q by the %s: a dead stake-pool record was written to %s:stakepool:<caller %d>: %s", i, op, who(C, before), kind, C, n.SPs[ckey].Raw))
 					}
 				} else {
 					mk("frame", fmt.Sprintf("op %d %q changed records outside the provider: %v", i, op, ex))
@@ -352,7 +274,7 @@ func who(c int, sp spRec) string {
 	if c == 3 {
 		return "contract owner"
 	}
-	if sp.wallet == strconv.Itoa(c) {
+	if sp.Wallet == strconv.Itoa(c) {
 		return "delegate wallet"
 	}
 	return "caller"
